@@ -260,6 +260,43 @@ class FakeRedis:
     def c_EXISTS(self, *ks):
         return sum(1 for k in ks if self._live(k) is not None)
 
+    # key expiry for any key type (the server decides when a key is gone)
+    def _set_exp(self, k, when, *opts):
+        if self._live(k) is None:
+            return 0
+        o = {x.upper() for x in opts}
+        cur = self.exp.get(k)
+        if (b"NX" in o and cur is not None) or (b"XX" in o and cur is None) or (b"GT" in o and (cur is None or when <= cur)) or (b"LT" in o and cur is not None and when >= cur):
+            return 0
+        if when <= self.now():
+            self.d.pop(k, None)
+            self.exp.pop(k, None)
+            return 1
+        self.exp[k] = when
+        return 1
+
+    def c_EXPIREAT(self, k, ts, *o):
+        return self._set_exp(k, float(int(ts)), *o)
+
+    def c_PEXPIREAT(self, k, ms, *o):
+        return self._set_exp(k, int(ms) / 1000.0, *o)
+
+    def c_EXPIRE(self, k, sec, *o):
+        return self._set_exp(k, self.now() + int(sec), *o)
+
+    def c_PEXPIRE(self, k, ms, *o):
+        return self._set_exp(k, self.now() + int(ms) / 1000.0, *o)
+
+    def c_PERSIST(self, k):
+        return 1 if self._live(k) is not None and self.exp.pop(k, None) is not None else 0
+
+    def c_PTTL(self, k):
+        if self._live(k) is None:
+            return -2
+        if k not in self.exp:
+            return -1
+        return int((self.exp[k] - self.now()) * 1000)
+
     def c_TTL(self, k):
         if self._live(k) is None:
             return -2
